@@ -639,6 +639,8 @@ def main(argv=None):
         'per_subcheck': {
             name: {'evaluations': r.evaluations,
                    'distinct_nontrivial': len(r.nontrivial),
+                   'rejected': int(r.outcomes.get('rejected', 0)),
+                   'borderline': int(r.outcomes.get('borderline', 0)),
                    'cpu_s': round(r.wall, 2)}
             for name, r in per_sub.items()},
         'regress_replays': regress_run,
